@@ -6,7 +6,7 @@
      the file cell is still exactly a0 (original bytes AND mode) and the temp file is absent or holds a prefix of
      the output with mode 0600,  OR  the outcome renames, no temp file exists, and the file holds the COMPLETE
      output with mode 0600 (window between rename and chmod) or with its original mode. *)
-From Miller Require Import Base.Bytes Base.Record C05.Model C19.Model C19.Proofs C19.ModelRun C19.ProofsRun.
+From Miller Require Import Base.Bytes Base.Record C05.Model C19.Model C19.Proofs C19.ModelRun C19.ProofsRun C19.Harness C19.Refine.
 Open Scope list_scope.
 
 (* crash at ANY point, any number of files, any outcome per file (success, DSL/input error mid-stream, refusal,
@@ -161,3 +161,51 @@ Example C19_nonvacuous :
   crash_state plan 5 st (B "t1") = Some (B "new-a", 384%N) /\
   crash_state plan 13 st (B "t2") = Some (B "par", 384%N).
 Proof. vm_compute. repeat split; reflexivity. Qed.
+
+(* ---------------------------------------------------------------- refinement: observed system-call traces.
+   Harness.chk_trace is the acceptor the check runs on EVERY trace the ptrace supervisor records (returned runs, injected
+   failures, runs killed at any system call; any number of write calls -- contents enter only by their lengths).  If it accepts
+   the trace for the length-abstraction of a plan (the harness's plan carries the write sizes; abs_entry replaces every chunk of
+   the real plan by x's of the same length), then at EVERY prefix of the observed trace the file system is in a state of the
+   model -- reached by a prefix of all_ops plan with exactly that erasure -- in which each named file is bitwise its original or
+   holds the complete output, the temp file is absent or a prefix of the output, and no other path has changed; a returned
+   run's trace is the erasure of the whole op sequence. *)
+Theorem C19_accepted_trace_satisfies_invariant :
+  forall kind plan0 tr plan st,
+  map entry_of_lens plan0 = map abs_entry plan ->
+  chk_trace (kind, plan0, tr) = true ->
+  wf plan st ->
+  (forall k, exists j,
+     firstn k tr = flat_map erase (firstn j (all_ops plan)) /\
+     (forall e, In e plan ->
+        ok_cells (st (e_file e)) (e_mode e) (e_out e) (crash_state plan j st (e_file e), crash_state plan j st (e_tmp e))) /\
+     (forall p, ~ In p (files_of plan ++ tmps_of plan) -> crash_state plan j st p = st p)) /\
+  (kind = 1%Z -> tr = flat_map erase (all_ops plan)).
+Proof. exact chk_trace_sound. Qed.
+Print Assumptions C19_accepted_trace_satisfies_invariant.
+
+(* a returned run whose trace is accepted has gone through the whole op sequence: no temp file, every file as before or as
+   its outcome says (a failure leaves the remaining files untouched: C19_later_files_untouched applies to the same plan) *)
+Theorem C19_accepted_returned_run :
+  forall plan st tr, wf plan st -> accepts true plan tr = true ->
+  tr = flat_map erase (all_ops plan) /\
+  forall e, In e plan ->
+    exec (all_ops plan) st (e_tmp e) = None /\
+    (exec (all_ops plan) st (e_file e) = final_cell (st (e_file e)) (e_mode e) (e_out e)
+     \/ exec (all_ops plan) st (e_file e) = st (e_file e)).
+Proof. exact accepted_returned_run. Qed.
+Print Assumptions C19_accepted_returned_run.
+
+(* the trace depends on the contents only through their lengths *)
+Theorem C19_trace_sees_lengths_only :
+  forall plan, flat_map erase (all_ops (map abs_entry plan)) = flat_map erase (all_ops plan).
+Proof. exact erase_abs. Qed.
+Print Assumptions C19_trace_sees_lengths_only.
+
+Example C19_refinement_nonvacuous :
+  let plan := [(B "d/a", B "d/mlr-in-place-1", 420%N, Succeeds [B "new"; B "-a"]); (B "b", B "mlr-in-place-2", 384%N, StreamFails [B "par"])] in
+  let plan0 := [(B "d/a", B "d/mlr-in-place-1", 420, 8, [3; 2]); (B "b", B "mlr-in-place-2", 384, 4, [3])]%Z in
+  map entry_of_lens plan0 = map abs_entry plan /\
+  chk_trace (0, plan0, [(0, B "d/a", [], 0); (0, B "d/a", [], 0); (1, B "d/mlr-in-place-1", [], 384); (2, B "d/mlr-in-place-1", [], 3)])%Z = true /\
+  chk_trace (1, plan0, [(0, B "d/a", [], 0)])%Z = false.
+Proof. exact refine_nonvacuous. Qed.
